@@ -469,6 +469,39 @@ Theorem edit_memo_refuted :
 Proof. exact edit_memo_refuted_lemma. Qed.
 Print Assumptions edit_memo_refuted.
 
+(* third hardening -- inputs looked at (number_of_staves, clef_map, exporters, note arrays: no operation of the model) and
+   then edited, also IN PLACE (PSetStaff / PSetVoice: nothing tells the part that it changed): the staves of different
+   inputs are disjoint in "staff" mode (staves >= 1) and in "auto" mode (no hypothesis) for the parts AS THEY ARE at
+   the call *)
+Theorem edited_parts_staves : forall ps0 eds,
+  (forall L out, merge_parts MStaff (map TPart (edit_parts eds ps0)) = RMerged L out ->
+     parts_good staves_ok (edit_parts eds ps0) ->
+     forall j1 j2 e1 e2, In (j1, e1) out -> In (j2, e2) out -> j1 <> j2 -> staffed e1 -> staffed e2 ->
+     e_staff e1 <> e_staff e2) /\
+  (forall L out, merge_parts MAuto (map TPart (edit_parts eds ps0)) = RMerged L out ->
+     forall j1 j2 e1 e2, In (j1, e1) out -> In (j2, e2) out -> j1 <> j2 -> staffed e1 -> staffed e2 ->
+     e_staff e1 <> e_staff e2).
+Proof.
+  intros ps0 eds. split; [intros L out; exact (edited_staves_disjoint_lemma ps0 eds L out)|].
+  intros L out; exact (edited_auto_staves_disjoint_lemma ps0 eds L out).
+Qed.
+Print Assumptions edited_parts_staves.
+
+(* non-vacuity (the seeded change h): input 0 = two notes on staff 1, looked at, then note 7 moved to staff 2 in place;
+   staff offsets remembered from the look put input 1 on staff 2 as well, the code's offsets give 1, 2 | 3; with
+   nothing edited the memoising variant and the code agree *)
+Theorem staff_memo_refuted :
+  exists ps0 eds out e1 e2,
+    eds = [(0%nat, PSetStaff 7 (Some 2))] /\
+    merge_memo_offsets MStaff ps0 (edit_parts eds ps0) = Some out /\
+    In (0%nat, e1) out /\ In (1%nat, e2) out /\ staffed e1 /\ staffed e2 /\ e_staff e1 = e_staff e2 /\
+    parts_good staves_ok (edit_parts eds ps0) /\
+    (exists L out', merge_parts MStaff (map TPart (edit_parts eds ps0)) = RMerged L out' /\
+                   map (fun x => (fst x, e_oid (snd x), e_staff (snd x))) out' = [(0%nat, 1, Some 1); (0%nat, 7, Some 2); (1%nat, 2, Some 3)]) /\
+    (exists L out0, merge_parts MStaff (map TPart ps0) = RMerged L out0 /\ merge_memo_offsets MStaff ps0 ps0 = Some out0).
+Proof. exact staff_memo_refuted_lemma. Qed.
+Print Assumptions staff_memo_refuted.
+
 (* histories of merges of ANY depth (a merged part merged again, its result merged again, ...; one part given:
    returned as it is): the final part counts in L > 0 and every element of it is an element of one of the parts
    as they were BUILT, at the musical time it had there (start' * d = start * L, end likewise, d | L) *)
